@@ -6,6 +6,7 @@ import (
 	"flag"
 	"fmt"
 	"os"
+	"sort"
 	"strings"
 
 	_ "ivgverif/internal/props"
@@ -37,6 +38,37 @@ func main() {
 				subs = append(subs, fmt.Sprintf("%s(%d/%d)", s.Name, s.N("quick"), s.N("thorough")))
 			}
 			fmt.Printf("%s %s: %s\n", id, p.Title, strings.Join(subs, " "))
+		}
+	case "describe":
+		// markdown description of every check as built (DESIGN.md appendix A)
+		for _, id := range run.IDs() {
+			p := run.Lookup(id)
+			fmt.Printf("### %s — %s\n\n", id, p.Title)
+			fmt.Printf("*Cases and non-triviality rule.* %s\n\n", p.Rule)
+			if len(p.Assumptions) > 0 {
+				fmt.Printf("*Assumptions / trusted base.* %s.\n\n", strings.Join(p.Assumptions, "; "))
+			}
+			fmt.Printf("| sub-monitor | cases quick | cases thorough | what it runs | minimum observations (else inconclusive) |\n|---|---|---|---|---|\n")
+			for _, s := range p.Subs {
+				var mins []string
+				for k, v := range s.Min {
+					mins = append(mins, fmt.Sprintf("%s≥%d", k, v))
+				}
+				sort.Strings(mins)
+				if len(mins) > 8 {
+					mins = append(mins[:8], fmt.Sprintf("… (%d counters)", len(s.Min)))
+				}
+				flags := ""
+				if s.Race {
+					flags = " (runs in the `-race` build)"
+				}
+				rule := s.Rule
+				if rule == "" {
+					rule = "see the rule above"
+				}
+				fmt.Printf("| `%s`%s | %d | %d | %s | %s |\n", s.Name, flags, s.N("quick"), s.N("thorough"), strings.ReplaceAll(rule, "|", "/"), strings.Join(mins, ", "))
+			}
+			fmt.Println()
 		}
 	case "worker":
 		fs := flag.NewFlagSet("worker", flag.ExitOnError)
